@@ -202,11 +202,17 @@ def leg_v(ctx, module, cfg, tracefile, strip=("conc", "marker", "stray", "panic"
     return viols, drifts, n
 
 
+_cache = {}
+
+
 def read_line(path, lineno):
-    with open(path) as f:
-        for i, line in enumerate(f, 1):
-            if i == lineno:
-                return json.loads(line)
+    """1-based line of an ndjson file, parsed (files are cached in memory)."""
+    if path not in _cache:
+        _cache.clear()
+        _cache[path] = open(path).read().splitlines()
+    ls = _cache[path]
+    if 1 <= lineno <= len(ls):
+        return json.loads(ls[lineno - 1])
     return None
 
 
